@@ -89,7 +89,7 @@ theorem C06_failure_requests_reset (s : State) (f : Flight) (v : String)
 example :
     let s := step 0 (step 0 {} (.invoke 0 5 "h")) .rtNext
     let t := step 0 s (.exit "runtime" "code1" false)
-    t.timers = ["invoke:0", "resetTail:2"] ∧ (step 0 t (.timer "resetTail:2")).out = ["caller0 done err=InvokeDoneFailed body=errjson:Runtime.ExitError"] := by
+    t.timers = [.invoke 0, .resetTail 2] ∧ (step 0 t (.timer (.resetTail 2))).outs = ["caller0 done err=InvokeDoneFailed body=errjson:Runtime.ExitError"] := by
   decide
 
 end Rie.Props.C06
